@@ -193,10 +193,12 @@ WILD_KEYS = {
     "ipaddr-or-hostname": ["wild", "Wild", "w-2", "192.168.0.1"],
 }
 BAD_KEYS = {
-    "basic-key": ["1abc", "_x", "a$b"],
-    "identifier": ["a-b", "1a", "a.b"],
+    # ('+' and '*' are no keys under any key type: the wildcard's own mark
+    # is not a name)
+    "basic-key": ["1abc", "_x", "a$b", "+", "*"],
+    "identifier": ["a-b", "1a", "a.b", "+", "*"],
     "ipaddr-or-hostname": ["-x", "999.1.1.1", "a", "1.2.3.256",
-                           "10.0.0.260", "1.2.3", "256.1.1.1"],
+                           "10.0.0.260", "1.2.3", "256.1.1.1", "+", "*"],
 }
 FIXED_SLOT_NAMES = ["main", "aux", "extra", "import"]
 SECTION_NAMES = ["n1", "n2", "N3", "main", "aux", "alpha", "zz",
